@@ -172,7 +172,7 @@ def fam_allow():
     recipes = [base, base + [call("AllowDataAttributes")],
                base + [AA(["class"], ["span"]), AA([], ["a"], noattrs=True)],
                [call("NewPolicy"), AA(["class", "title"], pat=".*", match=lower), call("AllowElementsMatching", pat="^b")]]
-    alpha = (av("class", ["abc", "123", "a1"]) + av("id", ["x"]) + av("title", ["tt", "zz"]) + av("lang", ["en"]) +
+    alpha = (av("class", ["abc", "123", "a1", " 123", "abc\n", "\tabc "]) + av("id", ["x"]) + av("title", ["tt", "zz"]) + av("lang", ["en"]) +
              av("onclick", ["x"]) + av("data-x", ["1"]) + av("data-a;b", ["1"]) + av("data-xmlq", ["1"]) + av("data-adata-;x", ["1"]) + av("data-data-xmlq", ["1"]) + av("x\"y", ["v"]) +
              av("href", ["/x"]) + av("style", ["color: red"]))
     els = ["span", "custom-x", "custom-y", "b", "a", "blink", "bx-x"]
@@ -335,7 +335,16 @@ def fam_css():
     frags = [dict(t=enc(h), urlsafe=bool(urlsafe.match(h))) for h in HOSTILE]
     return dict(name="css", props=props, proplist=sorted(props), frags=frags, recipes=[], tokens=[])
 
-FAMS = dict(css=fam_css, conc_zero=fam_conc_zero, conc=fam_conc, io=fam_io, policy=fam_policy, ugc=fam_ugc, conf=fam_conf, loop=fam_loop, loopq=fam_loopq, link=fam_link, url=fam_url, forced=fam_forced, allow=fam_allow, style=fam_style)
+def fam_nest():
+    """C09 / C08 deep: a reduced alphabet explored to greater depth (same-name nesting of kept and dropped elements,
+    kept containers in between, skipped regions)."""
+    base = [call("NewPolicy"), call("AllowElements", names=["b"]), AA(["href"], ["a"])]
+    recipes = [base, base + [call("AddSpaceWhenStrippingTag", b=True), call("AllowElementsMatching", pat="^custom-")]]
+    toks = [tok("start", "a"), tok("start", "a", (("href", "/x"),)), tok("end", "a"), tok("start", "b"), tok("end", "b"),
+            tok("start", "object"), tok("end", "object"), tok("text", d="txt")]
+    return dict(name="nest", recipes=recipes, tokens=toks)
+
+FAMS = dict(nest=fam_nest, css=fam_css, conc_zero=fam_conc_zero, conc=fam_conc, io=fam_io, policy=fam_policy, ugc=fam_ugc, conf=fam_conf, loop=fam_loop, loopq=fam_loopq, link=fam_link, url=fam_url, forced=fam_forced, allow=fam_allow, style=fam_style)
 
 if __name__ == "__main__":
     here = os.path.dirname(os.path.abspath(__file__))
